@@ -21,20 +21,7 @@ open AJ.Run AJ.Flat
 open AJ.Proofs.CoreA (WF wf_of mem_children)
 set_option linter.unusedVariables false
 
-/-- largest element, `0` for the empty list -/
-def sup (l : List Nat) : Nat := l.foldl max 0
-
-structure Timing where
-  /-- instant at which the body of the job (the run of the scheduler) begins -/
-  B : Nat → Nat
-  /-- instant at which it ends -/
-  E : Nat → Nat
-
-/-- the start-time equations of configuration `c` for body durations `dur` -/
-structure Timing.Sat (c : Cfg) (dur : Nat → Nat) (t : Timing) : Prop where
-  begin_   : ∀ j, 0 < j → j < c.n → t.B j = max (t.B (c.parent j)) (sup ((c.req j).map t.E))
-  endJob   : ∀ j, 0 < j → j < c.n → c.isSched j = false → t.E j = t.B j + dur j
-  endSched : ∀ s, s < c.n → c.isSched s = true → t.E s = max (t.B s) (sup ((c.children s).map t.E))
+/-! `sup`, `Timing` and the start-time equations `Timing.Sat` are defined in `Model/Flat.lean`. -/
 
 /-! ### `sup` -/
 
